@@ -132,6 +132,9 @@ C08_Failed(runs, maxDiff) ==
                      js == {j \in 1..Len(allm) : contributes(x, allm[j])}
                  IN (inUn /\ js = {}) \/ (~inUn /\ Cardinality(js) = 1)
            THEN {} ELSE {"single_pass_record_unjoined_xor_part_of_one_joined"})
+     \cup (IF /\ \A i, j \in 1..Len(runs.joined.f1) : i < j => ~SameRecord(runs.joined.f1[i], runs.joined.f1[j])
+              /\ \A y \in unjoined : \E x \in single : SameRecord(x, y)
+           THEN {} ELSE {"unjoined_records_are_single_pass_records_each_listed_once"})
      \cup (IF \A j \in 1..Len(allm) : partsOf(allm[j]) # {} THEN {} ELSE {"joined_record_has_first_and_second_pass_part"})
      \cup (IF \A j \in 1..Len(allm) : \A fs \in partsOf(allm[j]) :
                  MaxV(fs[1].rs, fs[2].rs) - MinV(fs[1].re, fs[2].re) <= maxDiff * 10
